@@ -38,4 +38,11 @@ pub assume_specification [usize::saturating_add_signed] (x: usize, d: isize) -> 
 pub fn vx_opaque_string() -> (r: String) { String::new() }
 #[verifier::external_body]
 pub fn vx_io_error() -> (r: std::io::Error) { std::io::Error::new(std::io::ErrorKind::Other, "error") }
+
+// core::cmp::Ordering::reverse (Less <-> Greater)
+pub open spec fn vx_spec_ord_reverse(o: std::cmp::Ordering) -> std::cmp::Ordering {
+    match o { std::cmp::Ordering::Less => std::cmp::Ordering::Greater, std::cmp::Ordering::Equal => std::cmp::Ordering::Equal, std::cmp::Ordering::Greater => std::cmp::Ordering::Less }
+}
+pub assume_specification [std::cmp::Ordering::reverse] (o: std::cmp::Ordering) -> (r: std::cmp::Ordering)
+    ensures r == vx_spec_ord_reverse(o);
 // ---- end of prelude/std_specs.rs ----
